@@ -93,6 +93,18 @@ def codes_task(task):
                         res('C11/HandHistory.variants/inverse-of-game_types/E', ok2, str(inv), meta)], 'contract': None}
 
 
+def shared_task(task):
+    """the behavioural half of the statement lives in contracts first written for C03 (structure-indexed amounts, raise cap), C13 (the
+    opening rule of the variant) and C02 (split pots): their obligations are run here too and reported under C11"""
+    import importlib
+    from pyvc.runner import relabel
+    mod = importlib.import_module(task['shared_module'])
+    return relabel(getattr(mod, task['shared_fn'])(task), 'C11')
+
+
+SHARED_C03 = ['min_amount', 'pot_amount', 'max_amount', 'verify_raising', 'verify_raise_to', 'complete_bet_or_raise_to']
+
+
 def main(argv=None):
     chk = Check('C11', 'proof', argv)
     source(EXTRA)
@@ -100,11 +112,28 @@ def main(argv=None):
     M = 'props.c11'
     tasks = [{'module': M, 'fn': 'vc_task', 'variant': v, 'name': f'variant/{v}', 'timeout_ms': 20000} for v in V.VARIANTS]
     tasks.append({'module': M, 'fn': 'codes_task', 'name': 'phh-codes'})
+    import props.c03 as p03
+    import props.c13 as p13
+    import props.c02 as p02
+    for name in SHARED_C03:
+        for sh in p03.shapes(chk.tier):
+            tasks.append({'module': M, 'fn': 'shared_task', 'shared_module': 'props.c03', 'shared_fn': 'vc_task', 'name': f'{name}/n{sh.n}',
+                          'contract': name, 'shape': sh.as_dict(), 'chips': 'int', 'timeout_ms': 60000 if chk.tier == 'thorough' else 20000,
+                          'weight': sh.n, 'sample': 0})
+    for sh in p13.shapes(chk.tier):
+        tasks.append({'module': M, 'fn': 'shared_task', 'shared_module': 'props.c13', 'shared_fn': 'vc_task', 'name': f'_begin_betting/n{sh.n}h{sh.H}',
+                      'shape': sh.as_dict(), 'timeout_ms': 120000 if chk.tier == 'thorough' else 30000, 'weight': sh.n * sh.H})
+    for sh in p02.shapes('quick', 'begin_chips_pushing'):
+        tasks.append({'module': M, 'fn': 'shared_task', 'shared_module': 'props.c02', 'shared_fn': 'vc_task',
+                      'name': f'begin_chips_pushing/n{sh.n}b{sh.B}t{sh.T}', 'contract': 'begin_chips_pushing', 'shape': sh.as_dict(),
+                      'timeout_ms': 40000, 'weight': sh.n * sh.B * sh.T})
     chk.run_tasks(tasks)
     chk.assumptions += [
         'the behavioural halves of the statement ("fixed-limit games accept only the fixed bet size and at most four raises, no-limit up to '
-        'the stack, pot-limit up to the pot, split games award two halves") follow from these field contracts together with the '
-        'structure-indexed contracts of C03 and the split contract of C02; that composition is not re-proved here',
+        'the stack, pot-limit up to the pot, split games award two halves") follow from the field contracts proved here together with the '
+        'structure-indexed contracts of C03 (amount bounds, raise cap, history of the round), the opening contract of C13 and the split '
+        'contract of C02; those obligations are run by this check as well (relabelled C11); the composition of the two halves over a whole '
+        'history is an induction on paper',
         'bet sizes > 0 (precondition); raw ante / blind / stack layouts are opaque values passed through (their meaning is C19)',
         'spec/variants.py is the reading of the names and docs/simulation.rst taken as the oracle',
     ]
